@@ -18,7 +18,7 @@ S == INSTANCE StdRc
 OpsCore == {"New", "CloneRoot", "CloneStored", "DropRoot", "Store", "Take", "DropStored",
             "Adopt", "Unadopt", "AdoptSame", "UnadoptSame", "AdoptStore", "TakeUnadopt"}
 OpsWeak == OpsCore \cup {"Downgrade", "Upgrade", "UpgradeStored", "WeakClone", "WeakDrop",
-                         "StoreWeak", "TakeWeak"}
+                         "StoreWeak", "TakeWeak", "WeakIntoRaw", "WeakFromRaw"}
 
 OpsWeakQ == {"New", "CloneRoot", "DropRoot", "AdoptStore", "TakeUnadopt", "DropStored", "Store",
              "Downgrade", "Upgrade", "UpgradeStored", "WeakDrop", "StoreWeak"}
@@ -56,7 +56,8 @@ CapsO == [strong |-> 3, stored |-> 2, rec |-> 2, weak |-> 1, storedW |-> 1, over
 CapsO3 == [strong |-> 2, stored |-> 1, rec |-> 1, weak |-> 0, storedW |-> 0, over |-> FALSE, elide |-> FALSE, scripted |-> 1]
 OpsStd == {"New", "CloneRoot", "CloneStored", "DropRoot", "Store", "Take", "DropStored",
            "Downgrade", "Upgrade", "UpgradeStored", "WeakClone", "WeakDrop", "StoreWeak", "TakeWeak",
-           "TryUnwrap", "GetMut", "MakeMut", "MakeMutS", "IntoRaw", "FromRaw", "IncStrong", "DecStrong", "DropDetached"}
+           "TryUnwrap", "GetMut", "MakeMut", "MakeMutS", "IntoRaw", "FromRaw", "IncStrong", "DecStrong", "DropDetached",
+           "WeakIntoRaw", "WeakFromRaw"}
 OpsStdM == OpsStd \cup {"Misc"}
 OpsStdQ == {"New", "CloneRoot", "DropRoot", "Store", "DropStored", "Downgrade", "Upgrade", "WeakDrop", "StoreWeak",
             "TryUnwrap", "GetMut", "MakeMut", "IntoRaw", "FromRaw", "DecStrong", "DropDetached"}
